@@ -497,6 +497,7 @@ func main() {
 				HSeed uint64 `json:"history_seed"`
 				MSeed uint64 `json:"mutation_seed"`
 				Steps int    `json:"steps"`
+				Root  bool   `json:"root"`
 				Stage string `json:"stage"`
 				Seed  uint64 `json:"seed"`
 			} `json:"cases"`
@@ -513,7 +514,7 @@ func main() {
 				continue
 			}
 			if rc.MSeed != 0 {
-				reSpecs = append(reSpecs, reSpec{Value: rc.Value, HSeed: rc.HSeed, MSeed: rc.MSeed, Steps: rc.Steps})
+				reSpecs = append(reSpecs, reSpec{Value: rc.Value, HSeed: rc.HSeed, MSeed: rc.MSeed, Steps: rc.Steps, Root: rc.Root})
 				continue
 			}
 			v, err := vg.ParseLine(rc.Value)
@@ -655,6 +656,9 @@ func main() {
 	flush(true)
 	if env.Replay == "" || len(reSpecs) > 0 {
 		totalLines += reencodeStage(env, rep, rng.Fork(), reSpecs)
+	}
+	if env.Replay == "" {
+		sharingStage(env, rep, rng.Fork())
 	}
 	if env.Replay == "" {
 		childSeeds = []uint64{env.Seed}
